@@ -192,12 +192,13 @@ func c07Inputs() []c07Input {
 	hdrThenData := c07Cat(c07F(1, 0, 31, blk7[:3]), c07F(0, 0, 31, b("not-a-continuation")))
 	hdrThenOtherCont := c07Cat(c07F(1, 0, 33, blk7[:3]), c07F(9, 0x4, 35, blk7[3:]))
 
-	// 8: a stream error followed by connection errors of several parsers
+	// 8: a stream error (reading goes on) followed by connection errors of several parsers
 	invalid := func(last []byte) []byte {
-		return c07Cat(c07F(8, 0, 37, u32(0)), c07F(3, 0, 37, u32(5)), last)
+		return c07Cat(c07F(8, 0, 37, u32(0)), last)
 	}
 
-	// 9: size limits, an HTTP/1 response, a truncated payload
+	// 9: size limits, an HTTP/1 response, a truncated payload (the HTTP/1 text parses to a 4.7 MB
+	// frame: it is read with a 16384 limit so that no execution allocates that much)
 	tooLarge := c07Cat(c07F(4, 1, 0, nil), []byte{0x00, 0x40, 0x01, 0, 0, 0, 0, 0, 41}, bytes.Repeat([]byte{'z'}, 64))
 	http1 := b("HTTP/1.1 200 OK\r\nContent-Length: 0\r\n\r\n")
 	short := c07Cat(ping, c07F(0, 0, 43, b("announces-more-than-it-has"))[:9+4])
@@ -221,14 +222,14 @@ func c07Inputs() []c07Input {
 		{"ReadFrame/order", "order: stray CONTINUATION, HEADERS+DATA, HEADERS+CONTINUATION(other stream); plain and meta", []c07Session{
 			{Label: "plain stray-continuation", Wire: unexpCont}, {Label: "plain headers+data", Wire: hdrThenData}, {Label: "meta headers+data", Meta: true, Wire: hdrThenData},
 			{Label: "meta headers+continuation-other-stream", Meta: true, Wire: hdrThenOtherCont}}},
-		{"ReadFrame/invalid", "invalid: WINDOW_UPDATE 0 (stream error), RST_STREAM, then DATA on stream 0 / bad padding / PING length 7 / SETTINGS INITIAL_WINDOW_SIZE=2^31 / PRIORITY_UPDATE of stream 0", []c07Session{
+		{"ReadFrame/invalid", "invalid: WINDOW_UPDATE 0 (stream error), then DATA on stream 0 / bad padding / PING length 7 / SETTINGS INITIAL_WINDOW_SIZE=2^31 / PRIORITY_UPDATE of stream 0", []c07Session{
 			{Label: "data-stream-0", Wire: invalid(c07F(0, 0, 0, b("zero")))},
 			{Label: "pad-too-long", Wire: invalid(c07F(0, 0x8, 39, c07Cat([]byte{200}, b("short"))))},
 			{Label: "ping-length-7", Wire: invalid(c07F(6, 0, 0, b("1234567")))},
 			{Label: "initial-window-2^31", Wire: invalid(c07F(4, 0, 0, c07Cat(setting(2, 2), setting(4, 1<<31))))},
 			{Label: "priority-update-0", Wire: invalid(c07F(0x10, 0, 0, c07Cat(u32(0), b("u=1"))))}}},
 		{"ReadFrame/size", "size: frame of 16385 bytes with max 16384, HTTP/1.1 response, payload cut short", []c07Session{
-			{Label: "max-read=16384", MaxRead: 16384, Wire: tooLarge}, {Label: "http1", Wire: http1}, {Label: "cut-short", Wire: short}}},
+			{Label: "max-read=16384", MaxRead: 16384, Wire: tooLarge}, {Label: "http1 max-read=16384", MaxRead: 16384, Wire: http1}, {Label: "cut-short", Wire: short}}},
 		{"ReadFrame/reuse", "SetReuseFrames: DATA, padded DATA, HEADERS, DATA", []c07Session{{Label: "reuse", Reuse: true, Wire: reuse}, {Label: "reuse meta", Reuse: true, Meta: true, Wire: reuse}}},
 		{"ReadFrameHeader", "package-level ReadFrameHeader over 3 frames and a cut header", []c07Session{{Label: "headers-only meta-train", HeadersOnly: true, Wire: metaTrain[:len(metaTrain)-22]}, {Label: "headers-only cut", HeadersOnly: true, Wire: c07Cat(ping, []byte{0, 0, 1, 2})}}},
 	}
@@ -248,8 +249,8 @@ func c07Ops() []vsched.Op {
 
 func TestVerif_C07_globals(t *testing.T) {
 	vx.Run(t, "C07", func(c *vx.Ctx) {
-		bounds := vx.Pick(c, []int{2}, []int{3})
-		c.Rule("concurrent part: for every unordered pair of inputs from a small alphabet (a valid train of 11 frame types; with ReadMetaHeaders: a padded priority HEADERS split over CONTINUATIONs, a list truncated by MaxHeaderListSize, two responses sharing the HPACK dynamic table, six malformed field lists, HPACK garbage; frame-order violations with and without ReadMetaHeaders; a stream error followed by five different connection errors; a frame above SetMaxReadFrameSize, an HTTP/1.1 response, a payload cut short; SetReuseFrames; the package-level ReadFrameHeader) two threads each read their byte strings with their own Framers to the end or the first terminal error (thorough: twice each) on the instrumented http2 Framer source (frame.go, errors.go, http2.go, ascii.go) starting from the package's initial state; every schedule with at most B preemptions (quick B=2, thorough B=3) at the scheduling points — before each statement mentioning a written package-level variable " + fmt.Sprint(zzWrittenGlobals) + ", sync.Pool Get/Put, and in the caller between every ReadFrame/ReadFrameHeader and the use of its result — is executed; every returned frame (Go type, header, all payload accessors, MetaHeadersFrame fields/Truncated/pseudo accessors), error (type and text) and ErrorDetail must equal what the same input yields alone on the uninstrumented package")
+		bounds := vx.Pick(c, []int{2}, []int{2, 3})
+		c.Rule("concurrent part: for every unordered pair of inputs from a small alphabet (a valid train of 11 frame types; with ReadMetaHeaders: a padded priority HEADERS split over CONTINUATIONs, a list truncated by MaxHeaderListSize, two responses sharing the HPACK dynamic table, six malformed field lists, HPACK garbage; frame-order violations with and without ReadMetaHeaders; a stream error followed by five different connection errors; a frame above SetMaxReadFrameSize, an HTTP/1.1 response, a payload cut short; SetReuseFrames; the package-level ReadFrameHeader) two threads each read their byte strings with their own Framers to the end or the first terminal error (thorough: twice each) on the instrumented http2 Framer source (frame.go, errors.go, http2.go, ascii.go) starting from the package's initial state; every schedule with at most B preemptions (quick B=2, thorough B=2 then 3) at the scheduling points — before each statement mentioning a written package-level variable " + fmt.Sprint(zzWrittenGlobals) + ", sync.Pool Get/Put, and in the caller between every ReadFrame/ReadFrameHeader and the use of its result — is executed; every returned frame (Go type, header, all payload accessors, MetaHeadersFrame fields/Truncated/pseudo accessors), error (type and text) and ErrorDetail must equal what the same input yields alone on the uninstrumented package")
 		c.Assume("concurrent part: statement granularity at mentions of written package-level variables; accesses to heap objects only reachable from them and mutation through method calls are not scheduling points; sync.Pool is one shared LIFO free list; only frame.go, errors.go, http2.go and ascii.go of package http2 are instrumented (the Framer needs nothing else), http2/hpack and http/httpguts are the real packages; Framers, readers and HPACK decoders are never shared between threads")
 		seq := 0
 		if !c.Quick() {
